@@ -2069,6 +2069,17 @@ class TupleParser:
         self.check_node(tup_tree, 'ERROR', ('CODE',), ('DESCRIPTION',),
                         ('INSTANCE',))
 
+        # The callers convert CODE to an integer status code
+        code = attrs(tup_tree)['CODE']
+        try:
+            int(code)
+        except ValueError:
+            raise CIMXMLParseError(
+                _format("Element {0!A} has an invalid value {1!A} for its "
+                        "'CODE' attribute (must be an integer number)",
+                        name(tup_tree), code),
+                conn_id=self.conn_id)
+
         # self.list_of_various() has the same effect as self.list_of_same()
         # when used with a single allowed child element, but is a little
         # faster.
